@@ -535,6 +535,7 @@ func (e *Exec) wfFacts(s *State, t types.Type, sl []string, out *[]string) {
 			}
 		case u.Info()&types.IsFloat != 0:
 			*out = append(*out, fmt.Sprintf("(and (<= 0 %s) (<= %s 3))", sl[0], sl[0]))
+			*out = append(*out, fmt.Sprintf("(=> (= %s 0) (and (<= (- MAXF) %s) (<= %s MAXF)))", sl[0], sl[1], sl[1]))
 		}
 	case *types.Pointer, *types.Map, *types.Chan, *types.Signature:
 		*out = append(*out, fmt.Sprintf("(< %s %s)", sl[0], e.W(s)))
@@ -707,10 +708,13 @@ func preamble() []string {
 		"(assert (forall ((s Str)) (! (=> (= (strlen s) 0) (= s str!empty)) :pattern ((strlen s)))))",
 		"(declare-fun rnd64 (Real) Real)",
 		"(declare-fun rnd32 (Real) Real)",
+		"(declare-fun rmul (Real Real) Real)", "(declare-fun rdiv (Real Real) Real)",
 		"(declare-fun fk_add (Int Real Int Real) Int)", "(declare-fun fk_sub (Int Real Int Real) Int)", "(declare-fun fk_mul (Int Real Int Real) Int)",
 		"(declare-fun fk_div (Int Real Int Real) Int)", "(declare-fun fv_div (Int Real Int Real) Real)", "(declare-fun fk_32 (Int Real) Int)",
 		"(define-fun absr ((x Real)) Real (ite (>= x 0.0) x (- x)))",
 		"(define-fun EPS53 () Real (/ 1.0 9007199254740992.0))",
+		"(define-fun EPS24 () Real (/ 1.0 16777216.0))",
+		"(define-fun TINY32 () Real (/ 1.0 713623846352979940529142984724747568191373312.0))",
 		"(define-fun TINY () Real (/ 1.0 404804506614621236704990693437834614099113299528284236713802716054860679135990693783920767402874248990374155728633623822779617474771586953734026799881477019843034848553132722728933815484186432682479535356945490137124014966849385397236206711298319112681620113024717539104666829230461005064372655017292012526615415482186989568.0))",
 		"(define-fun trunc ((x Real)) Int (ite (>= x 0.0) (to_int x) (- (to_int (- x)))))",
 		"(declare-fun f2i64 (Int Real) Int)", "(declare-fun f2i32 (Int Real) Int)", "(declare-fun f2i16 (Int Real) Int)", "(declare-fun f2i8 (Int Real) Int)",
